@@ -77,3 +77,137 @@ def suspension(model, info, art):
     if not seen:
         problems.append("engine scenario did not run")
     return ("confirmed" if problems else "contradicted"), "; ".join(problems) or f"subscriptions as documented ({seen})"
+
+
+# ------------------------------------------------------------------------------------------------ C06 (T1 obligations)
+def histories(model, info, art):
+    """a real RunBundler, a device whose clear_sub refuses unknown callbacks, the history of operations of the counter-example"""
+    import asyncio
+    import logging
+    from bluesky.bundlers import RunBundler
+    from bluesky.utils import Msg, IllegalMessageSequence
+
+    class Sig:
+        parent = None
+
+        def __init__(self, name):
+            self.name, self.cbs = name, []
+
+        def read(self):
+            return {self.name: {"value": 1, "timestamp": 0}}
+
+        def describe(self):
+            return {self.name: {"dtype": "number", "shape": [], "source": "x"}}
+
+        def read_configuration(self):
+            return {}
+
+        def describe_configuration(self):
+            return {}
+
+        def subscribe(self, cb, **kw):
+            self.cbs.append(cb)
+
+        def clear_sub(self, cb):
+            self.cbs.remove(cb)
+    out = []
+
+    async def emit(name, doc):
+        out.append(name.name)
+    b = RunBundler({}, False, emit, lambda n, d: None, logging.getLogger("replay"), strict_pre_declare=False)
+    sig, sig2 = Sig("sig"), Sig("sig2")
+    hist = list(info.get("history") or ["monitor sig", "suspend", "restore", "close_run"])
+    bad = []
+
+    def inv(where):
+        susp = bool(getattr(b, "_monitors_suspended", False))
+        for d in (sig, sig2):
+            want = (0 if susp else 1) if d in b._monitor_params else 0
+            if len(d.cbs) != want:
+                bad.append(f"after {where}: {d.name} holds {len(d.cbs)} subscription(s), expected {want} (suspended={susp}, monitored={d in b._monitor_params})")
+
+    async def go():
+        await b.open_run(Msg("open_run"))
+        for op in hist:
+            try:
+                if op == "monitor sig":
+                    await b.monitor(Msg("monitor", sig, name="mon"))
+                elif op == "monitor sig2":
+                    await b.monitor(Msg("monitor", sig2, name="mon2"))
+                elif op == "unmonitor sig":
+                    await b.unmonitor(Msg("unmonitor", sig))
+                elif op == "suspend":
+                    await b.suspend_monitors()
+                elif op == "restore":
+                    await b.restore_monitors()
+                    if getattr(b, "_monitors_suspended", False):
+                        bad.append("restore_monitors left the monitors flagged as suspended")
+                elif op == "clear_monitors":
+                    b.clear_monitors()
+                elif op == "close_run":
+                    await b.close_run(Msg("close_run"))
+            except IllegalMessageSequence:
+                pass
+            except Exception as e:   # noqa
+                bad.append(f"{op} raised {type(e).__name__}: {e}")
+            if op in ("clear_monitors", "close_run"):
+                await b.restore_monitors()
+                if sig.cbs or sig2.cbs or b._monitor_params:
+                    bad.append(f"after {op}: subscriptions left {len(sig.cbs)}/{len(sig2.cbs)}, monitors left {len(b._monitor_params)}")
+            else:
+                inv(op)
+    asyncio.run(go())
+    return ("confirmed" if bad else "contradicted"), "; ".join(bad) or f"history {hist}: invariant kept, nothing left behind"
+
+
+def close_run_failure(model, info, art):
+    """C06: RunEngine._close_run when the bundler's close_run raises (a monitored device refuses to unsubscribe): the run must stay registered"""
+    from bluesky import RunEngine
+    from bluesky.utils import Msg
+
+    class Sig:
+        name = "sig"
+        parent = None
+        cbs = []
+
+        def read(self):
+            return {"sig": {"value": 1, "timestamp": 0}}
+
+        def describe(self):
+            return {"sig": {"dtype": "number", "shape": [], "source": "x"}}
+
+        def read_configuration(self):
+            return {}
+
+        def describe_configuration(self):
+            return {}
+
+        def subscribe(self, cb, **kw):
+            self.cbs.append(cb)
+
+        def clear_sub(self, cb):
+            raise ValueError("clear_sub failed")
+    RE = RunEngine({}, context_managers=[])
+    key = info.get("key")
+    seen = {}
+
+    def hook(msg):
+        if msg.command == "null":
+            seen["registered"] = key in RE._run_bundlers
+
+    RE.msg_hook = hook
+
+    def plan():
+        yield Msg("open_run", run=key)
+        yield Msg("monitor", Sig(), run=key)
+        try:
+            yield Msg("close_run", run=key)
+        except ValueError:
+            pass
+        yield Msg("null")
+    try:
+        RE(plan())
+    except Exception:   # noqa
+        pass
+    ok = seen.get("registered") is True
+    return ("contradicted" if ok else "confirmed"), f"after a failing close_run the run is {'still' if ok else 'no longer'} registered with the engine"
